@@ -111,6 +111,7 @@ Definition check_bit (st : bloom) (v : Z) : outcome bool :=
   Ret (Z.land (b2z old) mask =? mask))).
 
 (* def add_item(self, item_bytes):
+     if self.bit_count == 0: return
      for hash_index in range(self.hash_function_count):
          seed = hash_index * 0xFBA4C795 + self.tweak
          self.set_bit(murmur3(item_bytes, seed=seed) % self.bit_count) *)
@@ -128,7 +129,8 @@ Fixpoint add_item_loop (is : list Z) (item : bytes) (st : bloom) : outcome bloom
 Definition zrange (k : Z) : list Z := map Z.of_nat (seq 0 (Z.to_nat k)).
 
 Definition add_item (st : bloom) (item : bytes) : outcome bloom :=
-  add_item_loop (zrange (bf_k st)) item st.
+  if bf_bit_count st =? 0 then Ret st
+  else add_item_loop (zrange (bf_k st)) item st.
 
 (* a whole session: BloomFilter(size, k, tweak); add_item(i) for i in items; filter_bytes *)
 Fixpoint add_items (st : bloom) (items : list bytes) : outcome bloom :=
